@@ -68,6 +68,7 @@ fs_after_truncate = z3.Function("fs_after_truncate", FS, PathSort, FS)
 fs_after_delete = z3.Function("fs_after_delete", FS, PathSort, FS)
 ubf_bytes = z3.Function("ubf_bytes", I_, I_, BytesSort)
 NULL_CK = z3.Const("NULL_CHECKSUM_U32", BytesSort)
+cfg_known = z3.Function("cfg_known", I_, B_)  # the remote entity table has a configuration for this id value
 
 
 def zi(I, v):
@@ -655,8 +656,8 @@ def install(w):
         for v0, r0 in memo:
             if I.ctx.decide(Eq_(v, v0)):
                 return r0
-        isn = I.ctx.fresh("cfgtable.miss", "bool")
-        if I.ctx.decide(isn):
+        # the table is a (partial) function of the id value: cfg_known(v) says whether it has an entry
+        if not I.ctx.decide(cfg_known(to_z3_int(v))):
             res = None
         else:
             res = I.fresh_obj(RemoteEntityCfg, f"remote_cfg!{len(memo)}")
